@@ -80,7 +80,7 @@ fn synth_source(rng: &mut Rng) -> Source {
     let val = |rng: &mut Rng, k: &[u8], n: u32| values::make(Tag { key_id: kid(k), writer: 1, seq: n }, *rng.pick(&[30usize, 300, 4070, 6000]));
     let mut class: &'static str;
     let mut allow_legacy = false;
-    match rng.below(10) {
+    match rng.below(11) {
         0 => {
             class = "synth-duplicates";
             // same key twice, newest first or last on disk
@@ -214,6 +214,25 @@ fn synth_source(rng: &mut Rng) -> Source {
             let k3 = b"last".to_vec();
             let v3 = values::make(Tag { key_id: kid(&k3), writer: 1, seq: 5 }, 100);
             place(&mut image, blocks + extra - 1, &indep::encode_record(version, &k3, &v3, 103, 0, blocks + extra - 1));
+        }
+        9 => {
+            // an ACTIVE journal whose extent covers the TAIL of a live multi-block legacy record (a crashed batch
+            // had been given blocks that recovery has not yet taken back): a legacy record has no checksum, so
+            // the bytes in its tail are whatever the crashed batch left there. Refusing the source is fine; if
+            // the migration succeeds, the copy must hold what an ordinary recovery of the source yields
+            class = "synth-journal-over-live-tail";
+            let k = b"long".to_vec();
+            let v = values::make(Tag { key_id: kid(&k), writer: 1, seq: 1 }, *rng.pick(&[6000usize, 9000, 12000]));
+            let r = indep::encode_record(version, &k, &v, 300, 0, 16);
+            let nb = (r.len() / BLOCK) as u64;
+            place(&mut image, 16, &r);
+            // uncommitted bytes of the crashed batch in the record's last block
+            let junk = indep::encode_record(version, b"uncommitted", b"bytes of a batch that never committed", 999, 0, 16 + nb - 1);
+            place(&mut image, 16 + nb - 1, &junk);
+            let other = b"other".to_vec();
+            place(&mut image, 30, &indep::encode_record(version, &other, &val(rng, &other, 2), 301, 0, 30));
+            let j = indep::encode_journal(rng.range(1, 9), &[(16 + nb - 1, 1)], 2);
+            place(&mut image, 1, &j);
         }
         _ => {
             class = "synth-plain";
@@ -359,7 +378,7 @@ fn one(report: &mut Report, seed: u64, n: u64, root: &str, cli: Option<&str>) {
         }
         // which failures are expected?
         match (&expected, src.class) {
-            (_, "synth-v3-source") | (_, "synth-v1-key-too-large-for-v3") | (_, "synth-damaged") | (_, "synth-damaged-head") | (_, "synth-damaged-marker") => {}
+            (_, "synth-v3-source") | (_, "synth-v1-key-too-large-for-v3") | (_, "synth-damaged") | (_, "synth-damaged-head") | (_, "synth-damaged-marker") | (_, "synth-journal-over-live-tail") => {}
             (_, "synth-ambiguous-marker") if !src.allow_legacy => {}
             _ if precreate => {}
             (Ok(_), _) => {
@@ -404,6 +423,31 @@ fn one(report: &mut Report, seed: u64, n: u64, root: &str, cli: Option<&str>) {
         report.violation("migrate:destination-version", format!("destination is v{}", dscan.version), replay.clone());
     }
     let got = logical_of_scan(&dscan);
+    if src.class == "synth-journal-over-live-tail" {
+        // judged against the real recovery of a copy of the source (what "a recovery of the source yields")
+        let copy = format!("{dir}/copy.feox");
+        std::fs::write(&copy, &src.image).unwrap();
+        let mut c = Cfg::disk((src.image.len() / BLOCK) as u64);
+        c.ttl = false;
+        c.cache = false;
+        c.cpus = 2;
+        match storeutil::open(&c, Some(&copy)) {
+            Ok(st) => {
+                let d = storeutil::dump(&st);
+                let real: Logical = d.iter().filter_map(|(k, v)| v.value.as_ref().ok().map(|val| (k.clone(), (val.clone(), v.ts, v.expiry)))).collect();
+                if real != got {
+                    let diff: Vec<String> = real.iter().filter(|(k, v)| got.get(*k) != Some(v)).map(|(k, v)| format!("{}: recovery yields {} (ts {}) -> destination {:?}", hex(k), values::describe(&v.0), v.1, got.get(k).map(|g| (values::describe(&g.0), g.1)))).take(4).collect();
+                    let extra: Vec<String> = got.keys().filter(|k| !real.contains_key(*k)).map(|k| hex(k)).take(4).collect();
+                    report.violation("migrate:contents-differ", format!("{}: the migration succeeded, but the destination differs from what an ordinary recovery of the same source yields: {diff:?}; only in destination: {extra:?}", src.class), replay.clone());
+                }
+                report.count("journal_over_live_tail_compared_with_real_recovery", 1);
+                crate::engines::crash::REAPER.with_store(st);
+            }
+            Err(e) => report.inconclusive.push(format!("{}: migration succeeded but the real store cannot open a copy of the source: {e:?}", src.class)),
+        }
+        let _ = std::fs::remove_file(&copy);
+        return;
+    }
     match &expected {
         Ok((sv, exp)) => {
             if *exp != got {
